@@ -880,6 +880,10 @@ class KeywordSearches:
                 data, parent, parentref, translated_path, ancestry,
                 relay_segment)
         else:
+            # Climb on copies:  the caller's ancestry and path also belong to
+            # the NodeCoords this search was started from.
+            ancestry = list(ancestry)
+            translated_path = YAMLPath(translated_path)
             for _ in range(parent_levels):
                 translated_path.pop()
                 (data, _) = ancestry.pop()
